@@ -424,6 +424,29 @@ func c18Sequential(t *testing.T, out *vh.Out, rng *vh.Rand) {
 	if cl, _ := vhReq(c, logical.UpdateOperation, "rec/data/a", root, map[string]any{"value": c18Canary}); cl != "ok" {
 		t.Fatalf("seed write: %s", cl)
 	}
+	// a requester that is bound to an identity entity whose identity policy (c18ident) grants far more than a wrapping
+	// token may: the wrapping it asks for must still yield a token that is good for its payload only
+	if cl, _ := vhReq(c, logical.UpdateOperation, "sys/policies/acl/c18ident", root, map[string]any{"policy": `
+path "rec/data/a" { capabilities = ["create", "read", "update"] }
+path "sys/mounts" { capabilities = ["read"] }
+path "sys/policies/acl/default" { capabilities = ["read"] }
+path "auth/token/create" { capabilities = ["update"] }
+`}); cl != "ok" {
+		t.Fatalf("policy c18ident: %s", cl)
+	}
+	_, eresp := vhReq(c, logical.UpdateOperation, "identity/entity", root, map[string]any{"name": "c18ent", "policies": []string{"c18ident"}})
+	entityID := ""
+	if eresp != nil && eresp.Data != nil {
+		entityID, _ = eresp.Data["id"].(string)
+	}
+	if entityID == "" {
+		t.Fatal("c18: no entity id")
+	}
+	alice := &logical.TokenEntry{Path: "auth/test/login", Policies: []string{"default"}, EntityID: entityID, TTL: time.Hour}
+	testMakeTokenDirectly(t, vhRootCtx(), c.tokenStore, alice)
+	if cl, _ := vhReq(c, logical.ReadOperation, "rec/data/a", alice.ID, nil); cl != "ok" {
+		t.Fatalf("c18: the entity-bound requester cannot read through its identity policy: %s", cl)
+	}
 	out.Reset()
 	out.Op("ok", "wseq")
 	type pr struct {
@@ -442,10 +465,14 @@ func c18Sequential(t *testing.T, out *vh.Out, rng *vh.Rand) {
 		{"auth/token/revoke-self", logical.UpdateOperation}, {"sys/policies/acl/default", logical.ReadOperation},
 		{"sys/leases/lookup", logical.UpdateOperation}, {"sys/capabilities-self", logical.UpdateOperation},
 	}
-	for _, q := range probes {
-		w := c18DoWrap(c, root, "secret", time.Hour)
+	for qi, q := range append(probes, probes...) {
+		reqName, reqTok := "root", root
+		if qi >= len(probes) {
+			reqName, reqTok = "entity", alice.ID
+		}
+		w := c18DoWrap(c, reqTok, "secret", time.Hour)
 		if w.tok == "" {
-			out.Op("nowrap:"+w.requester, "probe", q.path, string(q.op))
+			out.Op("nowrap:"+w.requester, "probe", q.path, string(q.op), reqName)
 			continue
 		}
 		data := map[string]any{}
@@ -460,7 +487,7 @@ func c18Sequential(t *testing.T, out *vh.Out, rng *vh.Rand) {
 		if cl == "denied" {
 			res = "denied"
 		}
-		out.Op(res, "probe", q.path, string(q.op))
+		out.Op(res, "probe", q.path, string(q.op), reqName)
 		// whatever happened, the single use is gone now
 		out.Op(vh.Catch(func() string { return c18Attempt(c, "unwrap3", w, root, root, nil) }), "wused")
 	}
